@@ -30,13 +30,23 @@ def systems(tier):
 class FracSpec(E.SystemSpec):
     """percentages may be fractions: fractions are scaled to integers for TLC"""
 
+    numstyle = "plain"      # "exp": the same numbers in exponent notation (2.5e+01); the declared fractions are the numbers, however written
+
+    def _num(self, x):
+        if self.numstyle == "exp":
+            t = f"{float(x):.6e}"
+            if float(t) != float(x):
+                raise MachineryError(f"{x} is not exact in exponent notation")
+            return t
+        return str(float(x))
+
     def text(self):
         out = ""
         for i, (m, p) in enumerate(self.comps):
             if i < len(self.comps) - 1:
-                out += m.text() + f".|{float(p)}%|"
+                out += m.text() + f".|{self._num(p)}%|"
             else:
-                out += m.text() + f".|{float(Fraction(p) * Fraction(repr(float(self.S))) / 100)}|"
+                out += m.text() + f".|{self._num(Fraction(p) * Fraction(repr(float(self.S))) / 100)}|"
         return out
 
     def constants(self):
@@ -61,8 +71,11 @@ def run(tier):
     tot_nodes = tot_paths = tot_states = 0
     samples = []
     picks = 0
-    for spec0 in systems(tier):
-        spec = FracSpec(spec0.comps, spec0.S, spec0.name)
+    syslist = [(s0, "plain") for s0 in systems(tier)]
+    syslist += [(s0, "exp") for s0 in systems(tier)[:2]]
+    for spec0, numstyle in syslist:
+        spec = FracSpec(spec0.comps, spec0.S, spec0.name + ("" if numstyle == "plain" else "-" + numstyle))
+        spec.numstyle = numstyle
         text = spec.text()
         sysobj = g.System(text)
         if not sysobj.generable:
